@@ -787,7 +787,10 @@ pub struct Eval<'p> {
 
 impl<'p> Eval<'p> {
     pub fn new(prog: &'p Program) -> Eval<'p> {
-        Eval { prog, fuel: std::cell::Cell::new(200_000), errors: Default::default() }
+        Eval { prog, fuel: std::cell::Cell::new(3_000_000), errors: Default::default() }
+    }
+    pub fn out_of_fuel(&self) -> bool {
+        self.fuel.get() == 0
     }
     fn err(&self, m: String) {
         let mut e = self.errors.borrow_mut();
